@@ -8,8 +8,15 @@
     history does, from the empty world ([history_ledger]): the allocator only ever sees valid requests, a
     reallocation / deallocation always presents the layout of a block that is live at that moment, and at the
     end the live blocks are exactly those owned by the vectors of the world plus those of vectors the script
-    itself overwrote (leaked by the script, not by the crate).  Vectors on the stack backends, the Empty
-    backend and the user-defined backend own no block: they cause no allocator event at all. *)
+    itself overwrote (leaked by the script, not by the crate).
+
+    The argument is structural and generic: [rel_ok] lists what is needed of a relation on vector states and
+    one on worlds (reflexive, transitive, insensitive to anything but the log, kept by the three backend calls,
+    by state changes that touch neither capacity nor backend, and by non-allocator events); Section [Machine]
+    derives from it, definition by definition, that every function of [Vec], [Ops] and [Interp] keeps the
+    relation whatever its outcome, up to [exec_regular].  Instance 1 is the ledger (C18).  Instance 2 (C11):
+    vectors on the stack backends, the Empty backend and the user-defined backend cause no allocator event
+    at all, in any history that builds no heap-backed vector ([history_noalloc]). *)
 From Coq Require Import Permutation.
 From AV.Model Require Import Base Bytes Vec Ops Interp.
 From AV.Proofs Require Import MemLemmas CapProofs.
@@ -55,6 +62,366 @@ Section Generic.
   Proof. intros s. apply Rrefl. Qed.
 End Generic.
 
+
+(** ** What the structural argument needs of a relation on vector states [RS] and one on worlds [RW] *)
+Definition alloc_event (e : event) : bool :=
+  match e with EAlloc _ _ | ERealloc _ _ _ | EDealloc _ _ => true | _ => false end.
+
+Record rel_ok (c : cfg) (RS : st -> st -> Prop) (RW : world -> world -> Prop) : Prop := {
+  rs_refl : forall s, RS s s;
+  rs_trans : forall a b d, RS a b -> RS b d -> RS a d;
+  (* a state change that touches neither capacity nor backend *)
+  rs_setv : forall f, (forall v, vcap (f v) = vcap v /\ vbk (f v) = vbk v) -> pres RS (setv f);
+  rs_emit : forall e, alloc_event e = false -> pres RS (emitv e);
+  (* the log is all the relation looks at in the user world *)
+  rs_log : forall v u v' u' u1 u1', ulog u1 = ulog u -> ulog u1' = ulog u' -> RS (v, u) (v', u') -> RS (v, u1) (v', u1');
+  (* the backend interface *)
+  rs_resize : forall n, pres RS (mem_resize c n);
+  rs_expand : forall n, pres RS (mem_expand c n);
+  rs_mdrop : pres RS (mem_drop c);
+  rw_refl : forall w, RW w w;
+  rw_trans : forall a b d, RW a b -> RW b d -> RW a d;
+  rw_log : forall w w' u1 u1', ulog u1 = ulog (wuw w) -> ulog u1' = ulog (wuw w') -> RW w w' ->
+                               RW {| wv := wv w; wuw := u1 |} {| wv := wv w'; wuw := u1' |};
+  rw_emit : forall w u' e, alloc_event e = false -> ulog u' = e :: ulog (wuw w) -> RW w {| wv := wv w; wuw := u' |};
+  (* a computation on one vector of the world *)
+  rw_on_vec : forall A vid (m : M st A), pres RS m -> pres RW (on_vec vid m)
+}.
+
+(** the six script steps that create, replace or drop a vector object are handled per relation *)
+Definition regular (o : op) : bool :=
+  match o with
+  | ONew _ _ | OWithCapacity _ _ _ | ODropVec _ | OClone _ _ | OCloneEmpty _ _ | OCloneEmptyIn _ _ _ => false
+  | _ => true
+  end.
+
+Section Machine.
+  Variables (c : cfg) (RS : st -> st -> Prop) (RW : world -> world -> Prop).
+  Hypothesis OK : rel_ok c RS RW.
+  Let spres {A} (m : M st A) : Prop := pres RS m.
+  Let wpres {A} (m : M world A) : Prop := pres RW m.
+
+  Lemma sp_ret {A} (a : A) : spres (ret a).
+  Proof. apply pres_ret, (rs_refl _ _ _ OK). Qed.
+  Lemma sp_raise {A} p : spres (@raise st A p).
+  Proof. apply pres_raise, (rs_refl _ _ _ OK). Qed.
+  Lemma sp_fault {A} f : spres (@fault_ st A f).
+  Proof. apply pres_fault. Qed.
+  Lemma sp_bind {A B} (m : M st A) (f : A -> M st B) : spres m -> (forall a, spres (f a)) -> spres (bind m f).
+  Proof. apply pres_bind, (rs_trans _ _ _ OK). Qed.
+  Lemma sp_assert b p : spres (assert_ b p).
+  Proof. apply pres_assert, (rs_refl _ _ _ OK). Qed.
+  Lemma sp_of_opt {A} (o : option A) p : spres (of_opt o p).
+  Proof. apply pres_of_opt, (rs_refl _ _ _ OK). Qed.
+  Lemma sp_of_ovf o : spres (of_ovf o).
+  Proof. apply sp_of_opt. Qed.
+  Lemma sp_on_unwind {A} (m : M st A) cl : spres m -> spres cl -> spres (on_unwind m cl).
+  Proof. apply pres_on_unwind, (rs_trans _ _ _ OK). Qed.
+  Lemma sp_getv : spres getv.
+  Proof. intros s. apply (rs_refl _ _ _ OK). Qed.
+  Lemma sp_setv f : (forall v, vcap (f v) = vcap v /\ vbk (f v) = vbk v) -> spres (setv f).
+  Proof. apply (rs_setv _ _ _ OK). Qed.
+  Lemma sp_emitv e : alloc_event e = false -> spres (emitv e).
+  Proof. apply (rs_emit _ _ _ OK). Qed.
+  Lemma sp_user_call : spres user_call.
+  Proof.
+    intros [v u]. unfold user_call. cbn [fst snd]. unfold tick.
+    destruct (ufuse u) as [k|]; [destruct (k =? 0)|]; cbn;
+      apply (rs_log _ _ _ OK v u v u); try reflexivity; apply (rs_refl _ _ _ OK).
+  Qed.
+  Lemma sp_fresh : spres (fresh c).
+  Proof. intros [v u]. cbn. apply (rs_log _ _ _ OK v u v u); try reflexivity; apply (rs_refl _ _ _ OK). Qed.
+  Lemma sp_quiet {A} (m : M st A) : spres m -> spres (quiet_st m).
+  Proof.
+    intros Hm [v u]. unfold quiet_st. cbn [fst snd]. specialize (Hm (v, disarm u)).
+    destruct (m (v, disarm u)) as [a [v' u']|p [v' u']|f]; auto; cbn [fst snd];
+      apply (rs_log _ _ _ OK v (disarm u) v' u'); try reflexivity; exact Hm.
+  Qed.
+  Lemma sp_unwinding {A} (m : M st A) cl : spres m -> spres cl -> spres (unwinding_st m cl).
+  Proof. intros. apply sp_on_unwind; [assumption|apply sp_quiet; assumption]. Qed.
+  Lemma sp_mem_resize n : spres (mem_resize c n).
+  Proof. apply (rs_resize _ _ _ OK). Qed.
+  Lemma sp_mem_expand n : spres (mem_expand c n).
+  Proof. apply (rs_expand _ _ _ OK). Qed.
+  Lemma sp_mem_drop : spres (mem_drop c).
+  Proof. apply (rs_mdrop _ _ _ OK). Qed.
+
+  Create HintDb ledger.
+  Hint Resolve sp_mem_resize sp_mem_expand sp_mem_drop : ledger.
+
+  Ltac sp :=
+    repeat first
+     [ solve [auto with ledger]
+     | apply sp_ret | apply sp_raise | apply sp_fault | apply sp_getv | apply sp_assert | apply sp_of_ovf | apply sp_of_opt
+     | apply sp_user_call | apply sp_fresh
+     | apply sp_unwinding | apply sp_on_unwind | apply sp_quiet
+     | apply sp_emitv; reflexivity
+     | apply sp_setv; intros ?; split; reflexivity
+     | apply sp_bind; [|intros ?]
+     | match goal with
+       | |- spres (if ?b then _ else _) => destruct b
+       | |- spres (match ?x with _ => _ end) => destruct x
+       end ].
+
+  Lemma sp_mem_expand_exact n : spres (mem_expand_exact c n).
+  Proof. unfold mem_expand_exact. sp. Qed.
+  Hint Resolve sp_mem_expand_exact : ledger.
+  Lemma sp_check_range off n : spres (check_range c off n).
+  Proof. unfold check_range. sp. Qed.
+  Hint Resolve sp_check_range : ledger.
+  Lemma sp_drop_at off : spres (drop_at c off).
+  Proof. unfold drop_at. sp. Qed.
+  Hint Resolve sp_drop_at : ledger.
+  Lemma sp_drop_loop : forall n off, spres (drop_loop c off n).
+  Proof. induction n as [|n IH]; intros off; cbn [drop_loop]; sp. Qed.
+  Hint Resolve sp_drop_loop : ledger.
+  Lemma sp_drop_slice : forall n off, spres (drop_slice c off n).
+  Proof.
+    induction n as [|n IH]; intros off; cbn [drop_slice]; [sp|].
+    intros s. pose proof (sp_drop_at off s) as H1.
+    destruct (drop_at c off s) as [a s1|p s1|f]; auto.
+    - pose proof (IH (off + szn c)%nat s1) as H2.
+      destruct (drop_slice c (off + szn c) n s1); auto; eapply (rs_trans _ _ _ OK); eauto.
+    - pose proof (sp_quiet _ (IH (off + szn c)%nat) s1) as H2.
+      destruct (quiet_st (drop_slice c (off + szn c) n) s1); auto. eapply (rs_trans _ _ _ OK); eauto.
+  Qed.
+  Hint Resolve sp_drop_slice : ledger.
+  Lemma sp_clone_into bs off : spres (clone_into c bs off).
+  Proof. unfold clone_into. sp. Qed.
+  Hint Resolve sp_clone_into : ledger.
+  Lemma sp_write_value off s : spres (write_value c off s).
+  Proof. unfold write_value. sp. Qed.
+  Hint Resolve sp_write_value : ledger.
+  Lemma sp_reserve_one : spres (reserve_one c).
+  Proof. unfold reserve_one. sp. Qed.
+  Lemma sp_reserve n : spres (reserve c n).
+  Proof. unfold reserve. sp. Qed.
+  Lemma sp_reserve_exact n : spres (reserve_exact c n).
+  Proof. unfold reserve_exact. sp. Qed.
+  Lemma sp_shrink_to_fit : spres (shrink_to_fit c).
+  Proof. unfold shrink_to_fit. sp. Qed.
+  Lemma sp_shrink_to n : spres (shrink_to c n).
+  Proof. unfold shrink_to. sp. Qed.
+  Lemma sp_set_len n : spres (set_len c n).
+  Proof. unfold set_len. sp. Qed.
+  Lemma sp_shift k a b n : spres (shift c k a b n).
+  Proof. unfold shift. sp. Qed.
+  Hint Resolve sp_reserve_one sp_reserve sp_reserve_exact sp_shrink_to_fit sp_shrink_to sp_set_len sp_shift : ledger.
+  Lemma sp_insert_unchecked i s : spres (insert_unchecked c i s).
+  Proof. unfold insert_unchecked. sp. Qed.
+  Lemma sp_push_unchecked s : spres (push_unchecked c s).
+  Proof. unfold push_unchecked. sp. Qed.
+  Lemma sp_clear : spres (clear c).
+  Proof. unfold clear. sp. Qed.
+  Hint Resolve sp_insert_unchecked sp_push_unchecked sp_clear : ledger.
+  Lemma sp_drop_vec : spres (drop_vec c).
+  Proof. unfold drop_vec. sp. Qed.
+  Lemma sp_clone_loop src : forall n i, spres (clone_loop c src i n).
+  Proof. induction n as [|n IH]; intros i; cbn [clone_loop]; sp. Qed.
+  Lemma sp_read_ptr p : spres (read_ptr c p).
+  Proof. unfold read_ptr. sp. Qed.
+  Lemma sp_write_ptr p bs : spres (write_ptr c p bs).
+  Proof. unfold write_ptr. sp. Qed.
+  Hint Resolve sp_drop_vec sp_clone_loop sp_read_ptr sp_write_ptr : ledger.
+  Lemma sp_clone_inner src :
+    spres (bind (reserve c (vlen src)) (fun _ => bind (clone_loop c (vmem src) 0 (N.to_nat (vlen src)))
+                                                       (fun _ => setv (with_len (vlen src))))).
+  Proof. sp. Qed.
+  (** the body of [clone_vec] behind the fresh prototype *)
+  Lemma sp_clone_body src :
+    spres (unwinding_st (bind (reserve c (vlen src)) (fun _ => bind (clone_loop c (vmem src) 0 (N.to_nat (vlen src)))
+                                                                 (fun _ => setv (with_len (vlen src)))))
+                        (drop_vec c)).
+  Proof. sp. Qed.
+
+  (** removal handles, drain, splice ([Ops]) *)
+  Lemma sp_temp_new k i : spres (temp_new c k i).
+  Proof. unfold temp_new. sp. Qed.
+  Lemma sp_temp_ptr h : spres (temp_ptr c h).
+  Proof. unfold temp_ptr. sp. Qed.
+  Hint Resolve sp_temp_new sp_temp_ptr : ledger.
+  Lemma sp_temp_bytes h : spres (temp_bytes c h).
+  Proof. unfold temp_bytes. sp. Qed.
+  Lemma sp_temp_consume k h : spres (temp_consume c k h).
+  Proof. unfold temp_consume. sp. Qed.
+  Hint Resolve sp_temp_bytes sp_temp_consume : ledger.
+  Lemma sp_temp_drop k h : spres (temp_drop c k h).
+  Proof. unfold temp_drop. sp. Qed.
+  Lemma sp_into_range len sb eb : spres (into_range len sb eb).
+  Proof. unfold into_range. sp. Qed.
+  Lemma sp_drain_new s e : spres (drain_new c s e).
+  Proof. unfold drain_new. sp. Qed.
+  Lemma sp_drop_range k s e : spres (drop_range c k s e).
+  Proof. unfold drop_range. sp. Qed.
+  Lemma sp_move_elements a b n : spres (move_elements c a b n).
+  Proof. unfold move_elements. sp. Qed.
+  Hint Resolve sp_temp_drop sp_into_range sp_drain_new sp_drop_range sp_move_elements : ledger.
+  Lemma sp_drain_drop k d : spres (drain_drop c k d).
+  Proof. unfold drain_drop. sp. Qed.
+  Lemma sp_drop_item it : spres (drop_item c it).
+  Proof. unfold drop_item. sp. Qed.
+  Hint Resolve sp_drain_drop sp_drop_item : ledger.
+  Lemma sp_drop_items : forall its, spres (drop_items c its).
+  Proof.
+    induction its as [|it r IH]; cbn [drop_items]; [sp|].
+    intros s. pose proof (sp_drop_item it s) as H1.
+    destruct (drop_item c it s) as [a s1|p s1|f]; auto.
+    - pose proof (IH s1) as H2. destruct (drop_items c r s1); auto; eapply (rs_trans _ _ _ OK); eauto.
+    - pose proof (sp_quiet _ IH s1) as H2.
+      destruct (quiet_st (drop_items c r) s1); auto. eapply (rs_trans _ _ _ OK); eauto.
+  Qed.
+  Hint Resolve sp_drop_items : ledger.
+  Lemma sp_splice_fill : forall budget off w its, spres (splice_fill c off budget w its).
+  Proof. induction budget as [|b IH]; intros off w its; cbn [splice_fill]; sp. Qed.
+  Hint Resolve sp_splice_fill : ledger.
+  Lemma sp_splice_prep k d cl : spres (splice_prep c k d cl).
+  Proof. unfold splice_prep. sp. Qed.
+  Hint Resolve sp_splice_prep : ledger.
+  Lemma sp_splice_drop k d cl its : spres (splice_drop c k d cl its).
+  Proof. unfold splice_drop. sp. Qed.
+  Lemma sp_elem_drop p : spres (elem_drop c p).
+  Proof. unfold elem_drop. sp. Qed.
+  Hint Resolve sp_splice_drop sp_elem_drop : ledger.
+
+  (** the world *)
+  Lemma wp_ret {A} (a : A) : wpres (ret a).
+  Proof. apply pres_ret, (rw_refl _ _ _ OK). Qed.
+  Lemma wp_raise {A} p : wpres (@raise world A p).
+  Proof. apply pres_raise, (rw_refl _ _ _ OK). Qed.
+  Lemma wp_fault {A} f : wpres (@fault_ world A f).
+  Proof. apply pres_fault. Qed.
+  Lemma wp_bind {A B} (m : M world A) (f : A -> M world B) : wpres m -> (forall a, wpres (f a)) -> wpres (bind m f).
+  Proof. apply pres_bind, (rw_trans _ _ _ OK). Qed.
+  Lemma wp_assert b p : wpres (assert_ b p).
+  Proof. apply pres_assert, (rw_refl _ _ _ OK). Qed.
+  Lemma wp_of_opt {A} (o : option A) p : wpres (of_opt o p).
+  Proof. apply pres_of_opt, (rw_refl _ _ _ OK). Qed.
+  Lemma wp_on_unwind {A} (m : M world A) cl : wpres m -> wpres cl -> wpres (on_unwind m cl).
+  Proof. apply pres_on_unwind, (rw_trans _ _ _ OK). Qed.
+  Lemma wp_peek v : wpres (peek_vec v).
+  Proof. intros w. unfold peek_vec. destruct (get_vec v w); apply (rw_refl _ _ _ OK). Qed.
+  Lemma wp_emitw e : alloc_event e = false -> wpres (emitw e).
+  Proof. intros H w. unfold emitw. apply (rw_emit _ _ _ OK) with (e := e); [exact H|reflexivity]. Qed.
+  Lemma wp_freshw : wpres (freshw c).
+  Proof. intros [l u]. unfold freshw. cbn [wv wuw]. apply (rw_log _ _ _ OK {| wv := l; wuw := u |} {| wv := l; wuw := u |}); try reflexivity. apply (rw_refl _ _ _ OK). Qed.
+  Lemma wp_harness_drop t : wpres (harness_drop c t).
+  Proof. unfold harness_drop. destruct (c_dg c); [apply wp_emitw; reflexivity|apply wp_ret]. Qed.
+  Lemma wp_decode bs : wpres (decode c bs).
+  Proof. unfold decode. destruct (dec (szn c) bs); [apply wp_ret|apply wp_fault]. Qed.
+  Lemma wp_quiet {A} (m : M world A) : wpres m -> wpres (quiet m).
+  Proof.
+    intros Hm w. unfold quiet. set (w0 := {| wv := wv w; wuw := disarm (wuw w) |}).
+    specialize (Hm w0). destruct (m w0) as [a w'|p w'|f]; auto;
+      apply ((rw_log _ _ _ OK) w0 w' (wuw w) {| ulog := ulog (wuw w'); unext := unext (wuw w'); ufuse := ufuse (wuw w) |}) in Hm;
+      try reflexivity; destruct w; exact Hm.
+  Qed.
+  Lemma wp_unwinding {A} (m : M world A) cl : wpres m -> wpres cl -> wpres (unwinding m cl).
+  Proof. intros. apply wp_on_unwind; [assumption|apply wp_quiet; assumption]. Qed.
+  Lemma wp_on_vec {A} vid (m : M st A) : spres m -> wpres (on_vec vid m).
+  Proof. apply (rw_on_vec _ _ _ OK). Qed.
+
+  Create HintDb wledger.
+  Hint Resolve wp_peek wp_freshw wp_harness_drop wp_decode : wledger.
+
+  Ltac wp :=
+    repeat first
+     [ solve [auto with wledger]
+     | apply wp_ret | apply wp_raise | apply wp_fault | apply wp_assert | apply wp_of_opt
+     | apply wp_unwinding | apply wp_on_unwind | apply wp_quiet
+     | apply wp_emitw; reflexivity
+     | apply wp_on_vec; solve [auto with ledger | sp]
+     | apply wp_bind; [|intros ?]
+     | match goal with
+       | |- wpres (if ?b then _ else _) => destruct b
+       | |- wpres (match ?x with _ => _ end) => destruct x
+       end ].
+
+  Lemma wp_drop_offer o : wpres (drop_offer c o).
+  Proof. unfold drop_offer. wp. Qed.
+  Lemma wp_finish_offer o : wpres (finish_offer c o).
+  Proof. unfold finish_offer. wp. Qed.
+  Hint Resolve wp_drop_offer wp_finish_offer : wledger.
+  Lemma wp_offer_into v o action : (forall s, spres (action s)) -> wpres (offer_into c v o action).
+  Proof. intros H. unfold offer_into. wp. Qed.
+  Lemma wp_offer_push v o : wpres (offer_into c v o (push_unchecked c)).
+  Proof. apply wp_offer_into. intros. apply sp_push_unchecked. Qed.
+  Lemma wp_offer_insert v o i : wpres (offer_into c v o (insert_unchecked c i)).
+  Proof. apply wp_offer_into. intros. apply sp_insert_unchecked. Qed.
+  Hint Resolve wp_offer_push wp_offer_insert : wledger.
+  Lemma wp_elem_bytes v i : wpres (elem_bytes c v i).
+  Proof. unfold elem_bytes. wp. Qed.
+  Lemma wp_temp_open v k i : wpres (temp_open c v k i).
+  Proof. unfold temp_open. wp. Qed.
+  Hint Resolve wp_elem_bytes wp_temp_open : wledger.
+  Lemma wp_make_offer s : wpres (make_offer c s).
+  Proof. unfold make_offer. wp. Qed.
+  Lemma wp_repeat_m m : wpres m -> forall n, wpres (repeat_m n m).
+  Proof. intros H. induction n as [|n IH]; cbn [repeat_m]; wp. Qed.
+  Lemma wp_lazy_down v bs : wpres (lazy_down c v bs).
+  Proof. unfold lazy_down. wp. Qed.
+  Hint Resolve wp_make_offer wp_lazy_down : wledger.
+  Lemma wp_lazy_downs v get : wpres get -> forall n, wpres (lazy_downs c v n get).
+  Proof. intros H. induction n as [|n IH]; cbn [lazy_downs]; wp. Qed.
+  Lemma wp_apply_sink v known h : forall k, wpres (apply_sink c v known h k).
+  Proof.
+    induction k as [| |d|d i| |k IH|n d k IH|n k IH|]; cbn [apply_sink]; wp.
+    - apply wp_repeat_m. wp.
+    - apply wp_lazy_downs. wp.
+  Qed.
+  Lemma wp_item_ptr v i : wpres (item_ptr c v i).
+  Proof. unfold item_ptr. wp. Qed.
+  Hint Resolve wp_apply_sink wp_item_ptr : wledger.
+  Lemma wp_item_sink v a p : forall k, wpres (item_sink c v a p k).
+  Proof.
+    induction k as [| |d|d i| |k IH|n d k IH|n k IH|]; cbn [item_sink]; wp.
+    - apply wp_repeat_m. wp.
+    - apply wp_lazy_downs. wp.
+  Qed.
+  Hint Resolve wp_item_sink : wledger.
+  Lemma wp_walk v a cleanup : (forall k, wpres (cleanup k)) -> forall pat k, wpres (walk c v a cleanup pat k).
+  Proof.
+    intros Hc. induction pat as [|[front s] rest IH]; intros k; cbn [walk]; [wp|].
+    destruct (if front then cur_next k else cur_next_back k) as [oi k']. wp.
+  Qed.
+  Lemma wp_walk_ro v : forall pat k, wpres (walk_ro c v pat k).
+  Proof.
+    induction pat as [|front rest IH]; intros k; cbn [walk_ro]; [wp|].
+    destruct (if front then cur_next k else cur_next_back k) as [oi k']. wp.
+  Qed.
+  Lemma wp_walk_nth v : forall pat k, wpres (walk_nth c v pat k).
+  Proof.
+    induction pat as [|[front n] rest IH]; intros k; cbn [walk_nth]; [wp|].
+    destruct (cur_nth front n k) as [oi k']. wp.
+  Qed.
+  Hint Resolve wp_walk_ro wp_walk_nth : wledger.
+  Lemma wp_make_items rk wa : forall n i, wpres (make_items c rk n i wa).
+  Proof. induction n as [|n IH]; intros i; cbn [make_items]; wp. Qed.
+  Hint Resolve wp_make_items : wledger.
+
+  Ltac wpx :=
+    repeat first
+     [ solve [auto with wledger]
+     | apply wp_ret | apply wp_raise | apply wp_fault | apply wp_assert | apply wp_of_opt
+     | apply wp_unwinding | apply wp_on_unwind | apply wp_quiet
+     | apply wp_emitw; reflexivity
+     | apply wp_on_vec; solve [auto with ledger | sp]
+     | apply wp_walk; intros ?
+     | apply wp_bind; [|intros ?]
+     | match goal with
+       | |- wpres (if ?b then _ else _) => destruct b
+       | |- wpres (match ?x with _ => _ end) => destruct x
+       end ].
+
+  (** every script step that does not create, replace or drop a vector object *)
+  Theorem exec_regular o : regular o = true -> wpres (exec c o).
+  Proof.
+    destruct o; cbn [regular]; intros Hreg; try discriminate; cbn [exec]; wpx.
+    generalize 0. generalize (N.to_nat k) as n. induction n as [|n IH]; intros i; [apply wp_ret|].
+    apply wp_bind; [apply wp_freshw|intros t]. apply wp_bind; [|intros _; apply IH].
+    apply wp_on_vec. apply sp_write_value.
+  Qed.
+End Machine.
+
 (** ** The ledger entry of one vector *)
 Definition ob (c : cfg) (v : vec) : option (N * N) :=
   match vbk v with BHeap => owned_block c v | _ => None end.
@@ -83,65 +450,24 @@ Proof.
   - congruence.
 Qed.
 
-Definition spres {A} (c : cfg) (m : M st A) : Prop := pres (Rst c) m.
 
-Definition alloc_event (e : event) : bool :=
-  match e with EAlloc _ _ | ERealloc _ _ _ | EDealloc _ _ => true | _ => false end.
-
-Lemma sp_ret {A} c (a : A) : spres c (ret a).
-Proof. apply pres_ret, Rst_refl. Qed.
-Lemma sp_raise {A} c p : spres c (@raise st A p).
-Proof. apply pres_raise, Rst_refl. Qed.
-Lemma sp_fault {A} c f : spres c (@fault_ st A f).
-Proof. apply pres_fault. Qed.
-Lemma sp_bind {A B} c (m : M st A) (f : A -> M st B) : spres c m -> (forall a, spres c (f a)) -> spres c (bind m f).
-Proof. apply pres_bind, Rst_trans. Qed.
-Lemma sp_assert c b p : spres c (assert_ b p).
-Proof. apply pres_assert, Rst_refl. Qed.
-Lemma sp_of_opt {A} c (o : option A) p : spres c (of_opt o p).
-Proof. apply pres_of_opt, Rst_refl. Qed.
-Lemma sp_of_ovf c o : spres c (of_ovf o).
-Proof. apply sp_of_opt. Qed.
-Lemma sp_on_unwind {A} c (m : M st A) cl : spres c m -> spres c cl -> spres c (on_unwind m cl).
-Proof. apply pres_on_unwind, Rst_trans. Qed.
-Lemma sp_getv c : spres c getv.
-Proof. intros s. apply Rst_refl. Qed.
-(** a state change that touches neither capacity nor backend *)
-Lemma sp_setv c f : (forall v, vcap (f v) = vcap v /\ vbk (f v) = vbk v) -> spres c (setv f).
+Lemma Rst_setv c f : (forall v, vcap (f v) = vcap v /\ vbk (f v) = vbk v) -> pres (Rst c) (setv f).
 Proof.
   intros H [v u]. cbn. exists []. cbn [fst snd]. destruct (H v) as [Hc Hb].
   repeat split; auto. unfold ob, owned_block. rewrite Hc, Hb. reflexivity.
 Qed.
-Lemma sp_emitv c e : alloc_event e = false -> spres c (emitv e).
+Lemma Rst_emit c e : alloc_event e = false -> pres (Rst c) (emitv e).
 Proof.
   intros H [v u]. cbn. exists [e]. cbn [fst snd]. repeat split.
   - constructor; [destruct e; cbn; auto; discriminate|constructor].
   - cbn. destruct e, (ob c v); cbn in *; try reflexivity; discriminate.
 Qed.
-(** the log is all [Rst] looks at in the user world *)
 Lemma Rst_log c v u v' u' u1 u1' :
   ulog u1 = ulog u -> ulog u1' = ulog u' -> Rst c (v, u) (v', u') -> Rst c (v, u1) (v', u1').
 Proof.
   intros H1 H2 (es & A & V & L & B). exists es. cbn [fst snd] in *. repeat split; auto.
   unfold appended in *. congruence.
 Qed.
-Lemma sp_user_call c : spres c user_call.
-Proof.
-  intros [v u]. unfold user_call. cbn [fst snd]. unfold tick.
-  destruct (ufuse u) as [k|]; [destruct (k =? 0)|]; cbn;
-    apply (Rst_log c v u v u); try reflexivity; apply Rst_refl.
-Qed.
-Lemma sp_fresh c : spres c (fresh c).
-Proof. intros [v u]. cbn. apply (Rst_log c v u v u); try reflexivity; apply Rst_refl. Qed.
-Lemma sp_quiet {A} c (m : M st A) : spres c m -> spres c (quiet_st m).
-Proof.
-  intros Hm [v u]. unfold quiet_st. cbn [fst snd]. specialize (Hm (v, disarm u)).
-  destruct (m (v, disarm u)) as [a [v' u']|p [v' u']|f]; auto; cbn [fst snd];
-    apply (Rst_log c v (disarm u) v' u'); try reflexivity; exact Hm.
-Qed.
-Lemma sp_unwinding {A} c (m : M st A) cl : spres c m -> spres c cl -> spres c (unwinding_st m cl).
-Proof. intros. apply sp_on_unwind; [assumption|apply sp_quiet; assumption]. Qed.
-
 (** ** The backends *)
 Lemma ob_heap c v : vbk v = BHeap -> ob c v = owned_block c v.
 Proof. unfold ob. intros ->. reflexivity. Qed.
@@ -178,9 +504,9 @@ Proof.
   apply (Rst_nonheap c v u _ u []); auto. reflexivity.
 Qed.
 Lemma Rst_emit_nonalloc c v u e : alloc_event e = false -> Rst c (v, u) (v, emit e u).
-Proof. intros H. pose proof (sp_emitv c e H (v, u)) as X. exact X. Qed.
+Proof. intros H. pose proof (Rst_emit c e H (v, u)) as X. exact X. Qed.
 
-Lemma sp_mem_resize c n : spres c (mem_resize c n).
+Lemma Rst_mem_resize c n : pres (Rst c) (mem_resize c n).
 Proof.
   intros [v u]. unfold mem_resize, bind, getv. cbn [fst snd]. destruct (vbk v) eqn:Hb; try exact I.
   - apply heap_resize_at. exact Hb.
@@ -190,7 +516,7 @@ Proof.
     destruct (reloc_resize c n (v, emit (EResize n) u)); auto;
       (eapply Rst_trans; [apply (Rst_emit_nonalloc c v u (EResize n)); reflexivity|exact H]).
 Qed.
-Lemma sp_mem_expand c n : spres c (mem_expand c n).
+Lemma Rst_mem_expand c n : pres (Rst c) (mem_expand c n).
 Proof.
   intros [v u]. unfold mem_expand, bind, getv. cbn [fst snd]. destruct (vbk v) eqn:Hb; try apply Rst_refl.
   - unfold of_ovf, of_opt. destruct (checked_add (vcap v) n); [|apply Rst_refl]. unfold ret.
@@ -203,240 +529,11 @@ Proof.
         (eapply Rst_trans; [apply (Rst_emit_nonalloc c v u (EExpand n)); reflexivity|exact H]).
     + unfold raise. apply (Rst_emit_nonalloc c v u (EExpand n)); reflexivity.
 Qed.
-Lemma sp_mem_drop c : spres c (mem_drop c).
+Lemma Rst_mem_drop c : pres (Rst c) (mem_drop c).
 Proof.
   intros [v u]. unfold mem_drop, bind, getv. cbn [fst snd]. destruct (vbk v) eqn:Hb; try apply Rst_refl.
   - apply heap_resize_at. exact Hb.
   - apply (Rst_emit_nonalloc c v u EMemDrop). reflexivity.
-Qed.
-
-Create HintDb ledger.
-#[export] Hint Resolve sp_mem_resize sp_mem_expand sp_mem_drop : ledger.
-
-Ltac sp :=
-  repeat first
-   [ solve [auto with ledger]
-   | apply sp_ret | apply sp_raise | apply sp_fault | apply sp_getv | apply sp_assert | apply sp_of_ovf | apply sp_of_opt
-   | apply sp_user_call | apply sp_fresh
-   | apply sp_unwinding | apply sp_on_unwind | apply sp_quiet
-   | apply sp_emitv; reflexivity
-   | apply sp_setv; intros ?; split; reflexivity
-   | apply sp_bind; [|intros ?]
-   | match goal with
-     | |- spres _ (if ?b then _ else _) => destruct b
-     | |- spres _ (match ?x with _ => _ end) => destruct x
-     end ].
-
-Lemma sp_mem_expand_exact c n : spres c (mem_expand_exact c n).
-Proof. unfold mem_expand_exact. sp. Qed.
-#[export] Hint Resolve sp_mem_expand_exact : ledger.
-Lemma sp_check_range c off n : spres c (check_range c off n).
-Proof. unfold check_range. sp. Qed.
-#[export] Hint Resolve sp_check_range : ledger.
-Lemma sp_drop_at c off : spres c (drop_at c off).
-Proof. unfold drop_at. sp. Qed.
-#[export] Hint Resolve sp_drop_at : ledger.
-Lemma sp_drop_loop c : forall n off, spres c (drop_loop c off n).
-Proof. induction n as [|n IH]; intros off; cbn [drop_loop]; sp. Qed.
-#[export] Hint Resolve sp_drop_loop : ledger.
-Lemma sp_drop_slice c : forall n off, spres c (drop_slice c off n).
-Proof.
-  induction n as [|n IH]; intros off; cbn [drop_slice]; [sp|].
-  change (spres c (on_unwind (bind (drop_at c off) (fun _ => ret tt)) (quiet_st (drop_slice c (off + szn c) n)))) || idtac.
-  intros s. pose proof (sp_drop_at c off s) as H1.
-  destruct (drop_at c off s) as [a s1|p s1|f]; auto.
-  - pose proof (IH (off + szn c)%nat s1) as H2.
-    destruct (drop_slice c (off + szn c) n s1); auto; eapply Rst_trans; eauto.
-  - pose proof (sp_quiet c _ (IH (off + szn c)%nat) s1) as H2.
-    destruct (quiet_st (drop_slice c (off + szn c) n) s1); auto. eapply Rst_trans; eauto.
-Qed.
-#[export] Hint Resolve sp_drop_slice : ledger.
-Lemma sp_clone_into c bs off : spres c (clone_into c bs off).
-Proof. unfold clone_into. sp. Qed.
-#[export] Hint Resolve sp_clone_into : ledger.
-Lemma sp_write_value c off s : spres c (write_value c off s).
-Proof. unfold write_value. sp. Qed.
-#[export] Hint Resolve sp_write_value : ledger.
-Lemma sp_reserve_one c : spres c (reserve_one c).
-Proof. unfold reserve_one. sp. Qed.
-Lemma sp_reserve c n : spres c (reserve c n).
-Proof. unfold reserve. sp. Qed.
-Lemma sp_reserve_exact c n : spres c (reserve_exact c n).
-Proof. unfold reserve_exact. sp. Qed.
-Lemma sp_shrink_to_fit c : spres c (shrink_to_fit c).
-Proof. unfold shrink_to_fit. sp. Qed.
-Lemma sp_shrink_to c n : spres c (shrink_to c n).
-Proof. unfold shrink_to. sp. Qed.
-Lemma sp_set_len c n : spres c (set_len c n).
-Proof. unfold set_len. sp. Qed.
-Lemma sp_shift c k a b n : spres c (shift c k a b n).
-Proof. unfold shift. sp. Qed.
-#[export] Hint Resolve sp_reserve_one sp_reserve sp_reserve_exact sp_shrink_to_fit sp_shrink_to sp_set_len sp_shift : ledger.
-Lemma sp_insert_unchecked c i s : spres c (insert_unchecked c i s).
-Proof. unfold insert_unchecked. sp. Qed.
-Lemma sp_push_unchecked c s : spres c (push_unchecked c s).
-Proof. unfold push_unchecked. sp. Qed.
-Lemma sp_clear c : spres c (clear c).
-Proof. unfold clear. sp. Qed.
-#[export] Hint Resolve sp_insert_unchecked sp_push_unchecked sp_clear : ledger.
-Lemma sp_drop_vec c : spres c (drop_vec c).
-Proof. unfold drop_vec. sp. Qed.
-Lemma sp_clone_loop c src : forall n i, spres c (clone_loop c src i n).
-Proof. induction n as [|n IH]; intros i; cbn [clone_loop]; sp. Qed.
-Lemma sp_read_ptr c p : spres c (read_ptr c p).
-Proof. unfold read_ptr. sp. Qed.
-Lemma sp_write_ptr c p bs : spres c (write_ptr c p bs).
-Proof. unfold write_ptr. sp. Qed.
-#[export] Hint Resolve sp_drop_vec sp_clone_loop sp_read_ptr sp_write_ptr : ledger.
-
-(** ** Removal handles, drain, splice ([Ops]) *)
-Lemma sp_temp_new c k i : spres c (temp_new c k i).
-Proof. unfold temp_new. sp. Qed.
-Lemma sp_temp_ptr c h : spres c (temp_ptr c h).
-Proof. unfold temp_ptr. sp. Qed.
-#[export] Hint Resolve sp_temp_new sp_temp_ptr : ledger.
-Lemma sp_temp_bytes c h : spres c (temp_bytes c h).
-Proof. unfold temp_bytes. sp. Qed.
-Lemma sp_temp_consume c k h : spres c (temp_consume c k h).
-Proof. unfold temp_consume. sp. Qed.
-#[export] Hint Resolve sp_temp_bytes sp_temp_consume : ledger.
-Lemma sp_temp_drop c k h : spres c (temp_drop c k h).
-Proof. unfold temp_drop. sp. Qed.
-Lemma sp_into_range c len sb eb : spres c (into_range len sb eb).
-Proof. unfold into_range. sp. Qed.
-Lemma sp_drain_new c s e : spres c (drain_new c s e).
-Proof. unfold drain_new. sp. Qed.
-Lemma sp_drop_range c k s e : spres c (drop_range c k s e).
-Proof. unfold drop_range. sp. Qed.
-Lemma sp_move_elements c a b n : spres c (move_elements c a b n).
-Proof. unfold move_elements. sp. Qed.
-#[export] Hint Resolve sp_temp_drop sp_into_range sp_drain_new sp_drop_range sp_move_elements : ledger.
-Lemma sp_drain_drop c k d : spres c (drain_drop c k d).
-Proof. unfold drain_drop. sp. Qed.
-Lemma sp_drop_item c it : spres c (drop_item c it).
-Proof. unfold drop_item. sp. Qed.
-#[export] Hint Resolve sp_drain_drop sp_drop_item : ledger.
-Lemma sp_drop_items c : forall its, spres c (drop_items c its).
-Proof.
-  induction its as [|it r IH]; cbn [drop_items]; [sp|].
-  intros s. pose proof (sp_drop_item c it s) as H1.
-  destruct (drop_item c it s) as [a s1|p s1|f]; auto.
-  - pose proof (IH s1) as H2. destruct (drop_items c r s1); auto; eapply Rst_trans; eauto.
-  - pose proof (sp_quiet c _ IH s1) as H2.
-    destruct (quiet_st (drop_items c r) s1); auto. eapply Rst_trans; eauto.
-Qed.
-#[export] Hint Resolve sp_drop_items : ledger.
-Lemma sp_splice_fill c : forall budget off w its, spres c (splice_fill c off budget w its).
-Proof. induction budget as [|b IH]; intros off w its; cbn [splice_fill]; sp. Qed.
-#[export] Hint Resolve sp_splice_fill : ledger.
-Lemma sp_splice_prep c k d cl : spres c (splice_prep c k d cl).
-Proof. unfold splice_prep. sp. Qed.
-#[export] Hint Resolve sp_splice_prep : ledger.
-Lemma sp_splice_drop c k d cl its : spres c (splice_drop c k d cl its).
-Proof. unfold splice_drop. sp. Qed.
-Lemma sp_elem_drop c p : spres c (elem_drop c p).
-Proof. unfold elem_drop. sp. Qed.
-#[export] Hint Resolve sp_splice_drop sp_elem_drop : ledger.
-
-(** ** A vector that comes into being: its ledger entry starts empty *)
-Definition Rnew (c : cfg) (s s' : st) : Prop :=
-  exists es, appended (snd s) (snd s') es /\ Forall valid_request es /\
-             ledger_run None es = Some (ob c (fst s')).
-(** ... or does not, after all: whatever it acquired has been returned *)
-Definition Rgone (c : cfg) (s s' : st) : Prop :=
-  exists es, appended (snd s) (snd s') es /\ Forall valid_request es /\ ledger_run None es = Some None.
-
-Lemma mem_build_new c bk v u :
-  match mem_build c bk (v, u) with
-  | Ok _ s' => Rnew c (v, u) s' /\ vbk (fst s') = bk /\ ob c (fst s') = None
-  | Panic _ s' => s' = (v, u)
-  | Fault _ => True
-  end.
-Proof.
-  assert (Hh : ob c {| vlen := 0; vcap := 0; vmem := []; vgen := 0; vbk := BHeap |} = None).
-  { unfold ob, owned_block. cbn. rewrite N.mul_0_r. reflexivity. }
-  unfold mem_build. destruct bk as [|size|n size| |c0]; cbn [setv fst snd].
-  - split; [|split; [reflexivity|exact Hh]]. exists []. cbn [fst snd ledger_run]. rewrite Hh. repeat split; auto.
-  - split; [|split; reflexivity]. exists []. cbn. repeat split; auto.
-  - destruct (stackn_fits n (c_sz c) size); cbn; [|reflexivity]. split; [|split; reflexivity]. exists []. cbn. repeat split; auto.
-  - split; [|split; reflexivity]. exists []. cbn. repeat split; auto.
-  - unfold bind, emitv, setv. cbn [fst snd]. split; [|split; reflexivity]. exists [EBuild (c_sz c) (c_al c)]. cbn. repeat split; auto.
-    constructor; [exact I|constructor].
-Qed.
-Lemma Rnew_Rst c s1 s2 s3 : Rnew c s1 s2 -> Rst c s2 s3 -> Rnew c s1 s3.
-Proof.
-  intros (e1 & A1 & V1 & L1) (e2 & A2 & V2 & L2 & B2). exists (e1 ++ e2). split; [|split].
-  - unfold appended in *. rewrite A2, A1, rev_app_distr, app_assoc. reflexivity.
-  - apply Forall_app. auto.
-  - rewrite (ledger_run_app _ _ _ _ L1). exact L2.
-Qed.
-Lemma Rnew_gone c s1 s2 : Rnew c s1 s2 -> ob c (fst s2) = None -> Rgone c s1 s2.
-Proof. intros (es & A & V & L) H. exists es. rewrite H in L. auto. Qed.
-
-(** a dropped vector owns nothing afterwards, also when a destructor panicked *)
-Lemma mem_drop_none c v u :
-  match mem_drop c (v, u) with
-  | Ok _ s' => ob c (fst s') = None | Panic _ s' => s' = (v, u) | Fault _ => True end.
-Proof.
-  unfold mem_drop, bind, getv. cbn [fst snd]. destruct (vbk v) eqn:Hb.
-  - pose proof (heap_resize_ledger c v u 0 Hb) as H. destruct (heap_resize c 0 (v, u)) as [a [v' u']|p [v' u']|f]; auto.
-    + destruct H as (es & _ & _ & _ & Hc & Hb'). cbn [fst]. rewrite (ob_heap c v' Hb'). unfold owned_block. rewrite Hc, N.mul_0_r. reflexivity.
-    + destruct H as [-> ->]. reflexivity.
-  - unfold ret. cbn [fst]. apply ob_nonheap. congruence.
-  - unfold ret. cbn [fst]. apply ob_nonheap. congruence.
-  - unfold ret. cbn [fst]. apply ob_nonheap. congruence.
-  - unfold emitv. cbn [fst]. apply ob_nonheap. congruence.
-Qed.
-(** heap_resize to 0 never panics: dropping the storage cannot fail *)
-Lemma mem_drop_no_panic c v u p s' : mem_drop c (v, u) = Panic p s' -> False.
-Proof.
-  unfold mem_drop, bind, getv. cbn [fst snd]. destruct (vbk v); try discriminate.
-  unfold heap_resize, bind, getv. cbn [fst snd]. destruct (vcap v =? 0); [discriminate|].
-  destruct (c_sz c =? 0); [discriminate|]. cbn. discriminate.
-Qed.
-Lemma quiet_st_panic {A} (m : M st A) s p s' : quiet_st m s = Panic p s' ->
-  exists s1, m (fst s, disarm (snd s)) = Panic p s1.
-Proof. unfold quiet_st. destruct (m (fst s, disarm (snd s))) as [a s1|p1 s1|f]; try discriminate. intros H. injection H as <- _. eauto. Qed.
-Lemma quiet_st_ok_fst {A} (m : M st A) s a s' : quiet_st m s = Ok a s' ->
-  exists s1, m (fst s, disarm (snd s)) = Ok a s1 /\ fst s' = fst s1.
-Proof. unfold quiet_st. destruct (m (fst s, disarm (snd s))) as [a1 s1|p1 s1|f]; try discriminate. intros H. injection H as <- <-. eauto. Qed.
-
-Lemma drop_vec_none c s :
-  match drop_vec c s with
-  | Ok _ s' => ob c (fst s') = None | Panic _ s' => ob c (fst s') = None | Fault _ => True end.
-Proof.
-  unfold drop_vec, bind, unwinding_st, on_unwind.
-  destruct (clear c s) as [a [v1 u1]|p [v1 u1]|f]; auto.
-  - pose proof (mem_drop_none c v1 u1) as H. destruct (mem_drop c (v1, u1)) as [b s2|p s2|f] eqn:E; auto.
-    exfalso. eapply mem_drop_no_panic; eauto.
-  - destruct (quiet_st (mem_drop c) (v1, u1)) as [b s2|p2 s2|f] eqn:E; auto.
-    destruct (quiet_st_ok_fst _ _ _ _ E) as (s3 & E3 & Hf). cbn [fst snd] in E3.
-    pose proof (mem_drop_none c v1 (disarm u1)) as H. rewrite E3 in H. rewrite Hf. exact H.
-Qed.
-
-(** [clone_vec]: the clone under construction, or nothing at all when the cloning panicked *)
-Lemma clone_vec_new c src v u :
-  match clone_vec c src (v, u) with
-  | Ok _ s' => Rnew c (v, u) s'
-  | Panic _ s' => Rgone c (v, u) s'
-  | Fault _ => True
-  end.
-Proof.
-  unfold clone_vec.
-  set (body := bind (reserve c (vlen src)) (fun _ => bind (clone_loop c (vmem src) 0 (N.to_nat (vlen src))) (fun _ => setv (with_len (vlen src))))).
-  assert (Hbody : spres c body) by (unfold body; sp).
-  unfold bind. pose proof (mem_build_new c (vbk src) v u) as Hb.
-  destruct (mem_build c (vbk src) (v, u)) as [a s1|p s1|f]; auto.
-  2:{ subst s1. exists []. cbn. repeat split; auto. }
-  destruct Hb as [Hn _].
-  unfold unwinding_st, on_unwind.
-  pose proof (Hbody s1) as H1. destruct (body s1) as [b s2|p s2|f]; auto.
-  - eapply Rnew_Rst; eauto.
-  - pose proof (sp_quiet c _ (sp_drop_vec c) s2) as H2.
-    destruct (quiet_st (drop_vec c) s2) as [b s3|p3 s3|f] eqn:E; auto.
-    apply Rnew_gone; [eapply Rnew_Rst; [eapply Rnew_Rst|]; eauto|].
-    destruct (quiet_st_ok_fst _ _ _ _ E) as (s4 & E4 & Hf). rewrite Hf.
-    pose proof (drop_vec_none c (fst s2, disarm (snd s2))) as H. rewrite E4 in H. exact H.
 Qed.
 
 (** ** The world: the multiset of live blocks *)
@@ -544,8 +641,6 @@ Proof.
   - apply Forall_app. auto.
   - intros L. eapply greplay_app; [apply G1|]. rewrite <- app_assoc. apply G2.
 Qed.
-Definition wpres {A} (c : cfg) (m : M world A) : Prop := pres (Rw c) m.
-
 Lemma Rw_log c w w' u1 u1' :
   ulog u1 = ulog (wuw w) -> ulog u1' = ulog (wuw w') -> Rw c w w' ->
   Rw c {| wv := wv w; wuw := u1 |} {| wv := wv w'; wuw := u1' |}.
@@ -561,43 +656,8 @@ Proof.
   - intros L. apply gr_other; [exact He|]. constructor. reflexivity.
 Qed.
 
-Lemma wp_ret {A} c (a : A) : wpres c (ret a).
-Proof. apply pres_ret, Rw_refl. Qed.
-Lemma wp_raise {A} c p : wpres c (@raise world A p).
-Proof. apply pres_raise, Rw_refl. Qed.
-Lemma wp_fault {A} c f : wpres c (@fault_ world A f).
-Proof. apply pres_fault. Qed.
-Lemma wp_bind {A B} c (m : M world A) (f : A -> M world B) : wpres c m -> (forall a, wpres c (f a)) -> wpres c (bind m f).
-Proof. apply pres_bind, Rw_trans. Qed.
-Lemma wp_assert c b p : wpres c (assert_ b p).
-Proof. apply pres_assert, Rw_refl. Qed.
-Lemma wp_of_opt {A} c (o : option A) p : wpres c (of_opt o p).
-Proof. apply pres_of_opt, Rw_refl. Qed.
-Lemma wp_on_unwind {A} c (m : M world A) cl : wpres c m -> wpres c cl -> wpres c (on_unwind m cl).
-Proof. apply pres_on_unwind, Rw_trans. Qed.
-Lemma wp_peek c v : wpres c (peek_vec v).
-Proof. intros w. unfold peek_vec. destruct (get_vec v w); apply Rw_refl. Qed.
-Lemma wp_emitw c e : alloc_event e = false -> wpres c (emitw e).
-Proof. intros H w. unfold emitw. apply Rw_same_vecs with (e := e); [exact H|reflexivity]. Qed.
-Lemma wp_freshw c : wpres c (freshw c).
-Proof.
-  intros w. unfold freshw. apply (Rw_log c w w); try reflexivity. apply Rw_refl.
-Qed.
-Lemma wp_harness_drop c t : wpres c (harness_drop c t).
-Proof. unfold harness_drop. destruct (c_dg c); [apply wp_emitw; reflexivity|apply wp_ret]. Qed.
-Lemma wp_decode c bs : wpres c (decode c bs).
-Proof. unfold decode. destruct (dec (szn c) bs); [apply wp_ret|apply wp_fault]. Qed.
-Lemma wp_quiet {A} c (m : M world A) : wpres c m -> wpres c (quiet m).
-Proof.
-  intros Hm w. unfold quiet. set (w0 := {| wv := wv w; wuw := disarm (wuw w) |}).
-  specialize (Hm w0). destruct (m w0) as [a w'|p w'|f]; auto;
-    apply (Rw_log c w0 w' (wuw w)) in Hm; try reflexivity; destruct w; exact Hm.
-Qed.
-Lemma wp_unwinding {A} c (m : M world A) cl : wpres c m -> wpres c cl -> wpres c (unwinding m cl).
-Proof. intros. apply wp_on_unwind; [assumption|apply wp_quiet; assumption]. Qed.
-
 (** a computation on one vector of the world *)
-Lemma wp_on_vec {A} c vid (m : M st A) : spres c m -> wpres c (on_vec vid m).
+Lemma Rw_on_vec c A vid (m : M st A) : pres (Rst c) m -> pres (Rw c) (on_vec vid m).
 Proof.
   intros Hm w. unfold on_vec. destruct (get_vec vid w) as [v|] eqn:Hg; [|apply Rw_refl].
   specialize (Hm (v, wuw w)).
@@ -613,83 +673,134 @@ Proof.
   destruct (m (v, wuw w)) as [a [v' u']|p [v' u']|f]; auto.
 Qed.
 
-Create HintDb wledger.
-#[export] Hint Resolve wp_peek wp_freshw wp_harness_drop wp_decode : wledger.
 
-Ltac wp :=
-  repeat first
-   [ solve [auto with wledger]
-   | apply wp_ret | apply wp_raise | apply wp_fault | apply wp_assert | apply wp_of_opt
-   | apply wp_unwinding | apply wp_on_unwind | apply wp_quiet
-   | apply wp_emitw; reflexivity
-   | apply wp_on_vec; solve [auto with ledger | sp]
-   | apply wp_bind; [|intros ?]
-   | match goal with
-     | |- wpres _ (if ?b then _ else _) => destruct b
-     | |- wpres _ (match ?x with _ => _ end) => destruct x
-     end ].
+(** ** Instance 1: the ledger *)
+Lemma ledger_ok c : rel_ok c (Rst c) (Rw c).
+Proof.
+  constructor.
+  - apply Rst_refl.
+  - apply Rst_trans.
+  - apply Rst_setv.
+  - apply Rst_emit.
+  - apply Rst_log.
+  - apply Rst_mem_resize.
+  - apply Rst_mem_expand.
+  - apply Rst_mem_drop.
+  - apply Rw_refl.
+  - apply Rw_trans.
+  - apply Rw_log.
+  - apply Rw_same_vecs.
+  - apply Rw_on_vec.
+Qed.
+Definition spres {A} (c : cfg) (m : M st A) : Prop := pres (Rst c) m.
+Definition wpres {A} (c : cfg) (m : M world A) : Prop := pres (Rw c) m.
+Definition l_drop_vec c : spres c (drop_vec c) := sp_drop_vec c _ _ (ledger_ok c).
+Definition l_quiet {A} c (m : M st A) : spres c m -> spres c (quiet_st m) := sp_quiet c _ _ (ledger_ok c) m.
+Definition l_unwinding {A} c (m : M st A) cl : spres c m -> spres c cl -> spres c (unwinding_st m cl) := sp_unwinding c _ _ (ledger_ok c) m cl.
+Definition l_clone_inner c src := sp_clone_inner c _ _ (ledger_ok c) src.
+Definition l_peek c v : wpres c (peek_vec v) := wp_peek c _ _ (ledger_ok c) v.
+Definition l_bind {A B} c (m : M world A) (f : A -> M world B) : wpres c m -> (forall a, wpres c (f a)) -> wpres c (bind m f) :=
+  wp_bind c _ _ (ledger_ok c) m f.
+(** ** A vector that comes into being: its ledger entry starts empty *)
+Definition Rnew (c : cfg) (s s' : st) : Prop :=
+  exists es, appended (snd s) (snd s') es /\ Forall valid_request es /\
+             ledger_run None es = Some (ob c (fst s')).
+(** ... or does not, after all: whatever it acquired has been returned *)
+Definition Rgone (c : cfg) (s s' : st) : Prop :=
+  exists es, appended (snd s) (snd s') es /\ Forall valid_request es /\ ledger_run None es = Some None.
 
-Lemma wp_drop_offer c o : wpres c (drop_offer c o).
-Proof. unfold drop_offer. wp. Qed.
-Lemma wp_finish_offer c o : wpres c (finish_offer c o).
-Proof. unfold finish_offer. wp. Qed.
-#[export] Hint Resolve wp_drop_offer wp_finish_offer : wledger.
-Lemma wp_offer_into c v o action : (forall s, spres c (action s)) -> wpres c (offer_into c v o action).
-Proof. intros H. unfold offer_into. wp. Qed.
-Lemma wp_offer_push c v o : wpres c (offer_into c v o (push_unchecked c)).
-Proof. apply wp_offer_into. intros. apply sp_push_unchecked. Qed.
-Lemma wp_offer_insert c v o i : wpres c (offer_into c v o (insert_unchecked c i)).
-Proof. apply wp_offer_into. intros. apply sp_insert_unchecked. Qed.
-#[export] Hint Resolve wp_offer_push wp_offer_insert : wledger.
-Lemma wp_elem_bytes c v i : wpres c (elem_bytes c v i).
-Proof. unfold elem_bytes. wp. Qed.
-Lemma wp_temp_open c v k i : wpres c (temp_open c v k i).
-Proof. unfold temp_open. wp. Qed.
-#[export] Hint Resolve wp_elem_bytes wp_temp_open : wledger.
-Lemma wp_make_offer c s : wpres c (make_offer c s).
-Proof. unfold make_offer. wp. Qed.
-Lemma wp_repeat_m c m : wpres c m -> forall n, wpres c (repeat_m n m).
-Proof. intros H. induction n as [|n IH]; cbn [repeat_m]; wp. Qed.
-Lemma wp_lazy_down c v bs : wpres c (lazy_down c v bs).
-Proof. unfold lazy_down. wp. Qed.
-#[export] Hint Resolve wp_make_offer wp_lazy_down : wledger.
-Lemma wp_lazy_downs c v get : wpres c get -> forall n, wpres c (lazy_downs c v n get).
-Proof. intros H. induction n as [|n IH]; cbn [lazy_downs]; wp. Qed.
-Lemma wp_apply_sink c v known h : forall k, wpres c (apply_sink c v known h k).
+Lemma mem_build_new c bk v u :
+  match mem_build c bk (v, u) with
+  | Ok _ s' => Rnew c (v, u) s' /\ vbk (fst s') = bk /\ ob c (fst s') = None
+  | Panic _ s' => s' = (v, u)
+  | Fault _ => True
+  end.
 Proof.
-  induction k as [| |d|d i| |k IH|n d k IH|n k IH|]; cbn [apply_sink]; wp.
-  - apply wp_repeat_m. wp.
-  - apply wp_lazy_downs. wp.
+  assert (Hh : ob c {| vlen := 0; vcap := 0; vmem := []; vgen := 0; vbk := BHeap |} = None).
+  { unfold ob, owned_block. cbn. rewrite N.mul_0_r. reflexivity. }
+  unfold mem_build. destruct bk as [|size|n size| |c0]; cbn [setv fst snd].
+  - split; [|split; [reflexivity|exact Hh]]. exists []. cbn [fst snd ledger_run]. rewrite Hh. repeat split; auto.
+  - split; [|split; reflexivity]. exists []. cbn. repeat split; auto.
+  - destruct (stackn_fits n (c_sz c) size); cbn; [|reflexivity]. split; [|split; reflexivity]. exists []. cbn. repeat split; auto.
+  - split; [|split; reflexivity]. exists []. cbn. repeat split; auto.
+  - unfold bind, emitv, setv. cbn [fst snd]. split; [|split; reflexivity]. exists [EBuild (c_sz c) (c_al c)]. cbn. repeat split; auto.
+    constructor; [exact I|constructor].
 Qed.
-Lemma wp_item_ptr c v i : wpres c (item_ptr c v i).
-Proof. unfold item_ptr. wp. Qed.
-#[export] Hint Resolve wp_apply_sink wp_item_ptr : wledger.
-Lemma wp_item_sink c v a p : forall k, wpres c (item_sink c v a p k).
+Lemma Rnew_Rst c s1 s2 s3 : Rnew c s1 s2 -> Rst c s2 s3 -> Rnew c s1 s3.
 Proof.
-  induction k as [| |d|d i| |k IH|n d k IH|n k IH|]; cbn [item_sink]; wp.
-  - apply wp_repeat_m. wp.
-  - apply wp_lazy_downs. wp.
+  intros (e1 & A1 & V1 & L1) (e2 & A2 & V2 & L2 & B2). exists (e1 ++ e2). split; [|split].
+  - unfold appended in *. rewrite A2, A1, rev_app_distr, app_assoc. reflexivity.
+  - apply Forall_app. auto.
+  - rewrite (ledger_run_app _ _ _ _ L1). exact L2.
 Qed.
-#[export] Hint Resolve wp_item_sink : wledger.
-Lemma wp_walk c v a cleanup : (forall k, wpres c (cleanup k)) -> forall pat k, wpres c (walk c v a cleanup pat k).
+Lemma Rnew_gone c s1 s2 : Rnew c s1 s2 -> ob c (fst s2) = None -> Rgone c s1 s2.
+Proof. intros (es & A & V & L) H. exists es. rewrite H in L. auto. Qed.
+
+(** a dropped vector owns nothing afterwards, also when a destructor panicked *)
+Lemma mem_drop_none c v u :
+  match mem_drop c (v, u) with
+  | Ok _ s' => ob c (fst s') = None | Panic _ s' => s' = (v, u) | Fault _ => True end.
 Proof.
-  intros Hc. induction pat as [|[front s] rest IH]; intros k; cbn [walk]; [wp|].
-  destruct (if front then cur_next k else cur_next_back k) as [oi k']. wp.
+  unfold mem_drop, bind, getv. cbn [fst snd]. destruct (vbk v) eqn:Hb.
+  - pose proof (heap_resize_ledger c v u 0 Hb) as H. destruct (heap_resize c 0 (v, u)) as [a [v' u']|p [v' u']|f]; auto.
+    + destruct H as (es & _ & _ & _ & Hc & Hb'). cbn [fst]. rewrite (ob_heap c v' Hb'). unfold owned_block. rewrite Hc, N.mul_0_r. reflexivity.
+    + destruct H as [-> ->]. reflexivity.
+  - unfold ret. cbn [fst]. apply ob_nonheap. congruence.
+  - unfold ret. cbn [fst]. apply ob_nonheap. congruence.
+  - unfold ret. cbn [fst]. apply ob_nonheap. congruence.
+  - unfold emitv. cbn [fst]. apply ob_nonheap. congruence.
 Qed.
-Lemma wp_walk_ro c v : forall pat k, wpres c (walk_ro c v pat k).
+(** heap_resize to 0 never panics: dropping the storage cannot fail *)
+Lemma mem_drop_no_panic c v u p s' : mem_drop c (v, u) = Panic p s' -> False.
 Proof.
-  induction pat as [|front rest IH]; intros k; cbn [walk_ro]; [wp|].
-  destruct (if front then cur_next k else cur_next_back k) as [oi k']. wp.
+  unfold mem_drop, bind, getv. cbn [fst snd]. destruct (vbk v); try discriminate.
+  unfold heap_resize, bind, getv. cbn [fst snd]. destruct (vcap v =? 0); [discriminate|].
+  destruct (c_sz c =? 0); [discriminate|]. cbn. discriminate.
 Qed.
-Lemma wp_walk_nth c v : forall pat k, wpres c (walk_nth c v pat k).
+Lemma quiet_st_panic {A} (m : M st A) s p s' : quiet_st m s = Panic p s' ->
+  exists s1, m (fst s, disarm (snd s)) = Panic p s1.
+Proof. unfold quiet_st. destruct (m (fst s, disarm (snd s))) as [a s1|p1 s1|f]; try discriminate. intros H. injection H as <- _. eauto. Qed.
+Lemma quiet_st_ok_fst {A} (m : M st A) s a s' : quiet_st m s = Ok a s' ->
+  exists s1, m (fst s, disarm (snd s)) = Ok a s1 /\ fst s' = fst s1.
+Proof. unfold quiet_st. destruct (m (fst s, disarm (snd s))) as [a1 s1|p1 s1|f]; try discriminate. intros H. injection H as <- <-. eauto. Qed.
+
+Lemma drop_vec_none c s :
+  match drop_vec c s with
+  | Ok _ s' => ob c (fst s') = None | Panic _ s' => ob c (fst s') = None | Fault _ => True end.
 Proof.
-  induction pat as [|[front n] rest IH]; intros k; cbn [walk_nth]; [wp|].
-  destruct (cur_nth front n k) as [oi k']. wp.
+  unfold drop_vec, bind, unwinding_st, on_unwind.
+  destruct (clear c s) as [a [v1 u1]|p [v1 u1]|f]; auto.
+  - pose proof (mem_drop_none c v1 u1) as H. destruct (mem_drop c (v1, u1)) as [b s2|p s2|f] eqn:E; auto.
+    exfalso. eapply mem_drop_no_panic; eauto.
+  - destruct (quiet_st (mem_drop c) (v1, u1)) as [b s2|p2 s2|f] eqn:E; auto.
+    destruct (quiet_st_ok_fst _ _ _ _ E) as (s3 & E3 & Hf). cbn [fst snd] in E3.
+    pose proof (mem_drop_none c v1 (disarm u1)) as H. rewrite E3 in H. rewrite Hf. exact H.
 Qed.
-#[export] Hint Resolve wp_walk_ro wp_walk_nth : wledger.
-Lemma wp_make_items c rk wa : forall n i, wpres c (make_items c rk n i wa).
-Proof. induction n as [|n IH]; intros i; cbn [make_items]; wp. Qed.
-#[export] Hint Resolve wp_make_items : wledger.
+
+(** [clone_vec]: the clone under construction, or nothing at all when the cloning panicked *)
+Lemma clone_vec_new c src v u :
+  match clone_vec c src (v, u) with
+  | Ok _ s' => Rnew c (v, u) s'
+  | Panic _ s' => Rgone c (v, u) s'
+  | Fault _ => True
+  end.
+Proof.
+  unfold clone_vec.
+  set (body := bind (reserve c (vlen src)) (fun _ => bind (clone_loop c (vmem src) 0 (N.to_nat (vlen src))) (fun _ => setv (with_len (vlen src))))).
+  assert (Hbody : spres c body) by (exact (l_clone_inner c src)).
+  unfold bind. pose proof (mem_build_new c (vbk src) v u) as Hb.
+  destruct (mem_build c (vbk src) (v, u)) as [a s1|p s1|f]; auto.
+  2:{ subst s1. exists []. cbn. repeat split; auto. }
+  destruct Hb as [Hn _].
+  unfold unwinding_st, on_unwind.
+  pose proof (Hbody s1) as H1. destruct (body s1) as [b s2|p s2|f]; auto.
+  - eapply Rnew_Rst; eauto.
+  - pose proof (l_quiet c _ (l_drop_vec c) s2) as H2.
+    destruct (quiet_st (drop_vec c) s2) as [b s3|p3 s3|f] eqn:E; auto.
+    apply Rnew_gone; [eapply Rnew_Rst; [eapply Rnew_Rst|]; eauto|].
+    destruct (quiet_st_ok_fst _ _ _ _ E) as (s4 & E4 & Hf). rewrite Hf.
+    pose proof (drop_vec_none c (fst s2, disarm (snd s2))) as H. rewrite E4 in H. exact H.
+Qed.
 
 (** ** Script steps that create, replace or drop a vector *)
 Lemma set_nth_twice {A} (x y d : A) : forall n l, set_nth n y d (set_nth n x d l) = set_nth n y d l.
@@ -751,7 +862,7 @@ Proof.
   destruct (mem_build c bk (v0, wuw w)) as [a [v1 u1]|p [v1 u1]|f]; auto.
   2:{ injection H as _ ->. destruct w; apply Rw_refl. }
   destruct H as (Hn & _ & Hob1). cbn [fst] in Hob1.
-  pose proof (sp_unwinding c _ _ (sp_mem_resize c n) (sp_mem_drop c) (v1, u1)) as H2.
+  pose proof (l_unwinding c _ _ (Rst_mem_resize c n) (Rst_mem_drop c) (v1, u1)) as H2.
   destruct (unwinding_st (mem_resize c n) (mem_drop c) (v1, u1)) as [b [v2 u2]|p [v2 u2]|f] eqn:E; auto.
   - eapply Rw_new. eapply Rnew_Rst; eauto.
   - eapply Rw_gone. apply Rnew_gone; [eapply Rnew_Rst; eauto|]. cbn [fst].
@@ -768,7 +879,7 @@ Lemma wp_exec_dropvec c v : wpres c (exec c (ODropVec v)).
 Proof.
   cbn [exec]. intros w. destruct (get_vec v w) as [vv|] eqn:Hg; [|apply Rw_refl].
   unfold on_vec. rewrite Hg.
-  pose proof (sp_drop_vec c (vv, wuw w)) as H1. pose proof (drop_vec_none c (vv, wuw w)) as H2.
+  pose proof (l_drop_vec c (vv, wuw w)) as H1. pose proof (drop_vec_none c (vv, wuw w)) as H2.
   assert (X : forall v' u', Rst c (vv, wuw w) (v', u') -> ob c v' = None ->
                             Rw c w (put_vec v None (wuw (put_vec v (Some v') u' w)) (put_vec v (Some v') u' w))).
   { intros v' u' (es & A0 & V & L & _) Hn. cbn [fst snd] in *. unfold put_vec at 1 3. cbn [wv wuw].
@@ -780,7 +891,7 @@ Qed.
 
 Lemma wp_exec_clone c v dst : wpres c (exec c (OClone v dst)).
 Proof.
-  cbn [exec]. apply wp_bind; [apply wp_peek|intros sv]. intros w.
+  cbn [exec]. apply l_bind; [apply l_peek|intros sv]. intros w.
   pose proof (clone_vec_new c sv sv (wuw w)) as H.
   destruct (clone_vec c sv (sv, wuw w)) as [a [nv u]|p [nv u]|f]; auto.
   - eapply Rw_new; eauto.
@@ -799,32 +910,24 @@ Proof.
   - injection H as _ ->. destruct w; apply Rw_refl.
 Qed.
 
-Ltac wpx :=
-  repeat first
-   [ solve [auto with wledger]
-   | apply wp_ret | apply wp_raise | apply wp_fault | apply wp_assert | apply wp_of_opt
-   | apply wp_unwinding | apply wp_on_unwind | apply wp_quiet
-   | apply wp_emitw; reflexivity
-   | apply wp_on_vec; solve [auto with ledger | sp]
-   | apply wp_walk; intros ?
-   | apply wp_build_into
-   | apply wp_bind; [|intros ?]
-   | match goal with
-     | |- wpres _ (if ?b then _ else _) => destruct b
-     | |- wpres _ (match ?x with _ => _ end) => destruct x
-     end ].
+
+Lemma wp_exec_clone_empty c v dst : wpres c (exec c (OCloneEmpty v dst)).
+Proof. cbn [exec]. apply l_bind; [apply l_peek|intros sv]. apply wp_build_into. Qed.
+Lemma wp_exec_clone_empty_in c v dst bk : wpres c (exec c (OCloneEmptyIn v dst bk)).
+Proof. cbn [exec]. apply l_bind; [apply l_peek|intros sv]. apply wp_build_into. Qed.
 
 (** ** EVERY script step, whatever the operation and its outcome *)
 Theorem exec_ledger c o : wpres c (exec c o).
 Proof.
-  destruct o;
-    try apply wp_exec_new; try apply wp_exec_withcap; try apply wp_exec_dropvec; try apply wp_exec_clone;
-    cbn [exec]; wpx.
-  generalize 0. generalize (N.to_nat k) as n. induction n as [|n IH]; intros i; [apply wp_ret|].
-  apply wp_bind; [apply wp_freshw|intros t]. apply wp_bind; [|intros _; apply IH].
-  apply wp_on_vec. apply sp_write_value.
+  destruct (regular o) eqn:Hr; [exact (exec_regular c _ _ (ledger_ok c) o Hr)|].
+  destruct o; try discriminate.
+  - apply wp_exec_new.
+  - apply wp_exec_withcap.
+  - apply wp_exec_dropvec.
+  - apply wp_exec_clone.
+  - apply wp_exec_clone_empty.
+  - apply wp_exec_clone_empty_in.
 Qed.
-
 (** ... as [run_step] runs it: fresh log, any fuse; a fault (never reached, by the other theorems) leaves the
     world as it was *)
 Definition step_events (c : cfg) (fuse : option N) (o : op) (w : world) : list event :=
@@ -930,7 +1033,8 @@ Example lx_events :
 Proof. vm_compute. split; reflexivity. Qed.
 
 
-(** the operations of the vector machine, bundled (each is also a lemma of its own above) *)
+
+(** the operations of the vector machine, bundled *)
 Theorem vector_ops_ledger c :
   (forall n, spres c (reserve c n)) /\ (forall n, spres c (reserve_exact c n)) /\
   spres c (shrink_to_fit c) /\ (forall n, spres c (shrink_to c n)) /\
@@ -940,4 +1044,304 @@ Theorem vector_ops_ledger c :
   (forall s e, spres c (drain_new c s e)) /\ (forall k d, spres c (drain_drop c k d)) /\
   (forall k d cl its, spres c (splice_drop c k d cl its)) /\
   (forall p bs, spres c (write_ptr c p bs)) /\ (forall p, spres c (read_ptr c p)).
-Proof. repeat split; intros; auto with ledger. Qed.
+Proof.
+  pose proof (ledger_ok c) as OK. repeat split; intros.
+  - apply (sp_reserve c _ _ OK).
+  - apply (sp_reserve_exact c _ _ OK).
+  - apply (sp_shrink_to_fit c _ _ OK).
+  - apply (sp_shrink_to c _ _ OK).
+  - apply (sp_push_unchecked c _ _ OK).
+  - apply (sp_insert_unchecked c _ _ OK).
+  - apply (sp_clear c _ _ OK).
+  - apply (sp_drop_vec c _ _ OK).
+  - apply (sp_set_len c _ _ OK).
+  - apply (sp_temp_new c _ _ OK).
+  - apply (sp_temp_consume c _ _ OK).
+  - apply (sp_temp_drop c _ _ OK).
+  - apply (sp_drain_new c _ _ OK).
+  - apply (sp_drain_drop c _ _ OK).
+  - apply (sp_splice_drop c _ _ OK).
+  - apply (sp_write_ptr c _ _ OK).
+  - apply (sp_read_ptr c _ _ OK).
+Qed.
+
+(** ** Instance 2 (C11): vectors that are not heap-backed cause no allocator traffic - in any history *)
+Definition noalloc (es : list event) : Prop := forallb (fun e => negb (alloc_event e)) es = true.
+Lemma noalloc_app a b : noalloc a -> noalloc b -> noalloc (a ++ b).
+Proof. unfold noalloc. intros Ha Hb. rewrite forallb_app, Ha, Hb. reflexivity. Qed.
+
+Definition Rna (s s' : st) : Prop :=
+  vbk (fst s') = vbk (fst s) /\
+  (vbk (fst s) <> BHeap -> exists es, appended (snd s) (snd s') es /\ noalloc es).
+Lemma Rna_refl s : Rna s s.
+Proof. split; [reflexivity|]. intros _. exists []. split; reflexivity. Qed.
+Lemma Rna_trans a b d : Rna a b -> Rna b d -> Rna a d.
+Proof.
+  intros [B1 H1] [B2 H2]. split; [congruence|]. intros Hn.
+  destruct (H1 Hn) as (e1 & A1 & N1). destruct H2 as (e2 & A2 & N2); [congruence|].
+  exists (e1 ++ e2). split; [|apply noalloc_app; assumption].
+  unfold appended in *. rewrite A2, A1, rev_app_distr, app_assoc. reflexivity.
+Qed.
+Lemma Rna_setv f : (forall v, vcap (f v) = vcap v /\ vbk (f v) = vbk v) -> pres Rna (setv f).
+Proof. intros H [v u]. cbn. split; [apply H|]. intros _. exists []. split; reflexivity. Qed.
+Lemma Rna_emit e : alloc_event e = false -> pres Rna (emitv e).
+Proof.
+  intros H [v u]. cbn. split; [reflexivity|]. intros _. exists [e]. split; [reflexivity|].
+  unfold noalloc. cbn. rewrite H. reflexivity.
+Qed.
+Lemma Rna_log v u v' u' u1 u1' :
+  ulog u1 = ulog u -> ulog u1' = ulog u' -> Rna (v, u) (v', u') -> Rna (v, u1) (v', u1').
+Proof.
+  intros E1 E2 [B H]. split; [exact B|]. intros Hn. destruct (H Hn) as (es & A0 & N0). exists es. split; [|exact N0].
+  unfold appended in *. cbn [fst snd] in *. congruence.
+Qed.
+Lemma Rna_heap c n v u : vbk v = BHeap ->
+  match heap_resize c n (v, u) with Ok _ s' => Rna (v, u) s' | Panic _ s' => Rna (v, u) s' | Fault _ => True end.
+Proof.
+  intros Hb. pose proof (heap_resize_ledger c v u n Hb) as H.
+  destruct (heap_resize c n (v, u)) as [a [v' u']|p [v' u']|f]; auto.
+  - destruct H as (es & _ & _ & _ & _ & Hb'). split; [cbn; congruence|]. cbn [fst]. intros Hn. contradiction.
+  - destruct H as [-> ->]. apply Rna_refl.
+Qed.
+Lemma Rna_reloc c n v u e : alloc_event e = false ->
+  match reloc_resize c n (v, emit e u) with
+  | Ok _ s' => Rna (v, u) s' | Panic _ s' => Rna (v, u) s' | Fault _ => True end.
+Proof.
+  intros He. unfold reloc_resize, bind, getv, of_ovf, of_opt. cbn [fst snd].
+  assert (X : forall v', vbk v' = vbk v -> Rna (v, u) (v', emit e u)).
+  { intros v' Hb. split; [exact Hb|]. intros _. exists [e]. split; [reflexivity|]. unfold noalloc. cbn. rewrite He. reflexivity. }
+  destruct (checked_mul (c_sz c) n) as [nb|]; [|apply X; reflexivity]. unfold ret.
+  destruct (alloc_limit <? nb); [apply X; reflexivity|]. unfold setv. cbn [fst snd]. apply X. reflexivity.
+Qed.
+Lemma Rna_mem_resize c n : pres Rna (mem_resize c n).
+Proof.
+  intros [v u]. unfold mem_resize, bind, getv. cbn [fst snd]. destruct (vbk v) eqn:Hb; try exact I.
+  - apply Rna_heap. exact Hb.
+  - unfold emitv. cbn [fst snd]. apply Rna_reloc. reflexivity.
+Qed.
+Lemma Rna_mem_expand c n : pres Rna (mem_expand c n).
+Proof.
+  intros [v u]. unfold mem_expand, bind, getv. cbn [fst snd]. destruct (vbk v) eqn:Hb; try apply Rna_refl.
+  - unfold of_ovf, of_opt. destruct (checked_add (vcap v) n); [|apply Rna_refl]. unfold ret. apply Rna_heap. exact Hb.
+  - unfold emitv. cbn [fst snd]. unfold of_ovf, of_opt. destruct (checked_add (vcap v) n) as [rq|].
+    + unfold ret. apply Rna_reloc. reflexivity.
+    + unfold raise. pose proof (Rna_emit (EExpand n) eq_refl (v, u)) as X. exact X.
+Qed.
+Lemma Rna_mem_drop c : pres Rna (mem_drop c).
+Proof.
+  intros [v u]. unfold mem_drop, bind, getv. cbn [fst snd]. destruct (vbk v) eqn:Hb; try apply Rna_refl.
+  - apply Rna_heap. exact Hb.
+  - pose proof (Rna_emit EMemDrop eq_refl (v, u)) as X. exact X.
+Qed.
+
+Definition nonheap_slot (o : option vec) : Prop := match o with Some v => vbk v <> BHeap | None => True end.
+Definition heapless (l : list (option vec)) : Prop := Forall nonheap_slot l.
+Lemma heapless_set_nth o : nonheap_slot o -> forall n l, heapless l -> heapless (set_nth n o None l).
+Proof.
+  intros Ho. induction n as [|n IH]; intros l Hl; destruct l as [|x l]; cbn [set_nth].
+  - constructor; [exact Ho|constructor].
+  - inversion Hl; subst. constructor; assumption.
+  - constructor; [exact I|]. apply IH. constructor.
+  - inversion Hl; subst. constructor; [assumption|]. apply IH. assumption.
+Qed.
+Lemma heapless_get vid w v : heapless (wv w) -> get_vec vid w = Some v -> vbk v <> BHeap.
+Proof.
+  unfold get_vec. intros Hl. destruct (nth_error (wv w) vid) as [[x|]|] eqn:E; try discriminate. intros H. injection H as ->.
+  apply nth_error_In in E. unfold heapless in Hl. rewrite Forall_forall in Hl. exact (Hl _ E).
+Qed.
+
+Definition Rw2 (w w' : world) : Prop :=
+  heapless (wv w) -> heapless (wv w') /\ exists es, appended (wuw w) (wuw w') es /\ noalloc es.
+Lemma Rw2_refl w : Rw2 w w.
+Proof. intros H. split; [exact H|]. exists []. split; reflexivity. Qed.
+Lemma Rw2_trans a b d : Rw2 a b -> Rw2 b d -> Rw2 a d.
+Proof.
+  intros H1 H2 Ha. destruct (H1 Ha) as (Hb & e1 & A1 & N1). destruct (H2 Hb) as (Hd & e2 & A2 & N2).
+  split; [exact Hd|]. exists (e1 ++ e2). split; [|apply noalloc_app; assumption].
+  unfold appended in *. rewrite A2, A1, rev_app_distr, app_assoc. reflexivity.
+Qed.
+Lemma Rw2_log w w' u1 u1' : ulog u1 = ulog (wuw w) -> ulog u1' = ulog (wuw w') -> Rw2 w w' ->
+  Rw2 {| wv := wv w; wuw := u1 |} {| wv := wv w'; wuw := u1' |}.
+Proof.
+  intros E1 E2 H Hl. cbn [wv wuw] in *. destruct (H Hl) as (Hl' & es & A0 & N0). split; [exact Hl'|]. exists es.
+  split; [|exact N0]. unfold appended in *. congruence.
+Qed.
+Lemma Rw2_emit w u' e : alloc_event e = false -> ulog u' = e :: ulog (wuw w) -> Rw2 w {| wv := wv w; wuw := u' |}.
+Proof.
+  intros He Hu Hl. cbn [wv wuw]. split; [exact Hl|]. exists [e]. split; [exact Hu|]. unfold noalloc. cbn. rewrite He. reflexivity.
+Qed.
+Lemma Rw2_on_vec A vid (m : M st A) : pres Rna m -> pres Rw2 (on_vec vid m).
+Proof.
+  intros Hm w. unfold on_vec. destruct (get_vec vid w) as [v|] eqn:Hg; [|apply Rw2_refl].
+  specialize (Hm (v, wuw w)).
+  assert (X : forall v' u', Rna (v, wuw w) (v', u') -> Rw2 w (put_vec vid (Some v') u' w)).
+  { intros v' u' [B H] Hl. cbn [fst snd] in *. pose proof (heapless_get _ _ _ Hl Hg) as Hn.
+    unfold put_vec. cbn [wv wuw]. split; [|exact (H Hn)].
+    apply heapless_set_nth; [cbn; congruence|exact Hl]. }
+  destruct (m (v, wuw w)) as [a [v' u']|p [v' u']|f]; auto.
+Qed.
+Lemma noalloc_ok c : rel_ok c Rna Rw2.
+Proof.
+  constructor.
+  - apply Rna_refl.
+  - apply Rna_trans.
+  - apply Rna_setv.
+  - apply Rna_emit.
+  - apply Rna_log.
+  - apply Rna_mem_resize.
+  - apply Rna_mem_expand.
+  - apply Rna_mem_drop.
+  - apply Rw2_refl.
+  - apply Rw2_trans.
+  - apply Rw2_log.
+  - apply Rw2_emit.
+  - apply Rw2_on_vec.
+Qed.
+
+(** building storage on any backend never talks to the allocator (Heap allocates lazily) *)
+Lemma mem_build_na c bk v0 u :
+  match mem_build c bk (v0, u) with
+  | Ok _ (v', u') => vbk v' = bk /\ exists es, appended u u' es /\ noalloc es
+  | Panic _ s' => s' = (v0, u)
+  | Fault _ => True
+  end.
+Proof.
+  unfold mem_build. destruct bk as [|size|n size| |c0]; cbn [setv fst snd];
+    try (split; [reflexivity|]; exists []; split; reflexivity).
+  - destruct (stackn_fits n (c_sz c) size); cbn; [|reflexivity]. split; [reflexivity|]. exists []. split; reflexivity.
+  - unfold bind, emitv, setv. cbn [fst snd]. split; [reflexivity|]. exists [EBuild (c_sz c) (c_al c)]. split; reflexivity.
+Qed.
+
+Lemma clone_vec_na c src v u : vbk src <> BHeap ->
+  match clone_vec c src (v, u) with
+  | Ok _ (v', u') => vbk v' = vbk src /\ exists es, appended u u' es /\ noalloc es
+  | Panic _ (v', u') => True /\ exists es, appended u u' es /\ noalloc es
+  | Fault _ => True
+  end.
+Proof.
+  intros Hn. unfold clone_vec. unfold bind at 1. pose proof (mem_build_na c (vbk src) v u) as H.
+  destruct (mem_build c (vbk src) (v, u)) as [a [v1 u1]|p [v1 u1]|f]; auto.
+  2:{ injection H as -> ->. split; [exact I|]. exists []. split; reflexivity. }
+  destruct H as (Hb & e1 & A1 & N1).
+  pose proof (sp_clone_body c _ _ (noalloc_ok c) src (v1, u1)) as H2.
+  assert (X : forall v2 u2, Rna (v1, u1) (v2, u2) -> vbk v2 = vbk src /\ exists es, appended u u2 es /\ noalloc es).
+  { intros v2 u2 [B H]. cbn [fst snd] in *. split; [congruence|]. destruct H as (e2 & A2 & N2); [congruence|].
+    exists (e1 ++ e2). split; [|apply noalloc_app; assumption].
+    unfold appended in *. rewrite A2, A1, rev_app_distr, app_assoc. reflexivity. }
+  match goal with |- match ?m (v1, u1) with _ => _ end => destruct (m (v1, u1)) as [b [v2 u2]|p [v2 u2]|f] end.
+  - exact (X v2 u2 H2).
+  - destruct (X v2 u2 H2) as [_ He]. split; [exact I|exact He].
+  - exact I.
+Qed.
+
+Definition heapfree_op (o : op) : Prop :=
+  match o with
+  | ONew _ bk | OWithCapacity _ bk _ | OCloneEmptyIn _ _ bk => bk <> BHeap
+  | _ => True
+  end.
+
+Lemma Rw2_build c bk sv dst w : (heapless (wv w) -> bk <> BHeap) ->
+  match mem_build c bk (sv, wuw w) with
+  | Ok _ (nv, u) => Rw2 w (put_vec dst (Some nv) u w)
+  | Panic p (_, u) => Rw2 w {| wv := wv w; wuw := u |}
+  | Fault f => True
+  end.
+Proof.
+  intros Hbk. pose proof (mem_build_na c bk sv (wuw w)) as H.
+  destruct (mem_build c bk (sv, wuw w)) as [a [nv u]|p [nv u]|f]; auto.
+  - destruct H as (Hb & es & A0 & N0). intros Hl. unfold put_vec. cbn [wv wuw]. split; [|eauto].
+    apply heapless_set_nth; [cbn; rewrite Hb; exact (Hbk Hl)|exact Hl].
+  - injection H as _ ->. destruct w; apply Rw2_refl.
+Qed.
+
+Theorem exec_noalloc c o : heapfree_op o -> pres Rw2 (exec c o).
+Proof.
+  intros Hop. destruct (regular o) eqn:Hr; [exact (exec_regular c _ _ (noalloc_ok c) o Hr)|].
+  pose proof (noalloc_ok c) as OK.
+  destruct o; try discriminate; cbn [heapfree_op] in Hop; cbn [exec].
+  - (* ONew *) intros w. pose proof (Rw2_build c bk {| vlen := 0; vcap := 0; vmem := []; vgen := 0; vbk := bk |} dst w (fun _ => Hop)) as H.
+    destruct (mem_build c bk ({| vlen := 0; vcap := 0; vmem := []; vgen := 0; vbk := bk |}, wuw w)) as [a [nv u]|p [nv u]|f]; exact H.
+  - (* OWithCapacity *)
+    intros w. set (v0 := {| vlen := 0; vcap := 0; vmem := []; vgen := 0; vbk := bk |}).
+    unfold bind. pose proof (mem_build_na c bk v0 (wuw w)) as H.
+    destruct (mem_build c bk (v0, wuw w)) as [a [v1 u1]|p [v1 u1]|f]; auto.
+    2:{ injection H as _ ->. destruct w; apply Rw2_refl. }
+    destruct H as (Hb & e1 & A1 & N1).
+    pose proof (sp_unwinding c _ _ OK _ _ (Rna_mem_resize c n) (Rna_mem_drop c) (v1, u1)) as H2.
+    assert (X : forall v2 u2, Rna (v1, u1) (v2, u2) -> vbk v2 <> BHeap /\ exists es, appended (wuw w) u2 es /\ noalloc es).
+    { intros v2 u2 [B H]. cbn [fst snd] in *. split; [congruence|]. destruct H as (e2 & A2 & N2); [congruence|].
+      exists (e1 ++ e2). split; [|apply noalloc_app; assumption].
+      unfold appended in *. rewrite A2, A1, rev_app_distr, app_assoc. reflexivity. }
+    destruct (unwinding_st (mem_resize c n) (mem_drop c) (v1, u1)) as [b [v2 u2]|p [v2 u2]|f]; auto; intros Hl;
+      destruct (X v2 u2 H2) as [Hn He].
+    + unfold put_vec. cbn [wv wuw]. split; [|exact He]. apply heapless_set_nth; [exact Hn|exact Hl].
+    + cbn [wv wuw]. split; [exact Hl|exact He].
+  - (* ODropVec *)
+    intros w. destruct (get_vec v w) as [vv|] eqn:Hg; [|apply Rw2_refl].
+    pose proof (wp_on_vec c _ _ OK v _ (sp_drop_vec c _ _ OK) w) as H.
+    assert (X : forall w', Rw2 w w' -> Rw2 w (put_vec v None (wuw w') w')).
+    { intros w' Hw Hl. destruct (Hw Hl) as (Hl' & He). unfold put_vec. cbn [wv wuw]. split; [|exact He].
+      apply heapless_set_nth; [exact I|exact Hl']. }
+    destruct (on_vec v (drop_vec c) w); auto.
+  - (* OClone *)
+    intros w. unfold bind, peek_vec. destruct (get_vec v w) as [sv|] eqn:Hg; [|apply Rw2_refl].
+    pose proof (clone_vec_na c sv sv (wuw w)) as H.
+    destruct (clone_vec c sv (sv, wuw w)) as [a [nv u]|p [nv u]|f]; auto; intros Hl;
+      destruct (H (heapless_get _ _ _ Hl Hg)) as (Hb & He).
+    + unfold put_vec. cbn [wv wuw]. split; [|exact He]. apply heapless_set_nth; [cbn; rewrite Hb; exact (heapless_get _ _ _ Hl Hg)|exact Hl].
+    + cbn [wv wuw]. split; [exact Hl|exact He].
+  - (* OCloneEmpty *)
+    intros w. unfold bind, peek_vec. destruct (get_vec v w) as [sv|] eqn:Hg; [|apply Rw2_refl].
+    pose proof (Rw2_build c (vbk sv) sv dst w (fun Hl => heapless_get _ _ _ Hl Hg)) as H.
+    destruct (mem_build c (vbk sv) (sv, wuw w)) as [a [nv u]|p [nv u]|f]; exact H.
+  - (* OCloneEmptyIn *)
+    intros w. unfold bind, peek_vec. destruct (get_vec v w) as [sv|] eqn:Hg; [|apply Rw2_refl].
+    pose proof (Rw2_build c bk sv dst w (fun _ => Hop)) as H.
+    destruct (mem_build c bk (sv, wuw w)) as [a [nv u]|p [nv u]|f]; exact H.
+Qed.
+
+Theorem step_noalloc c fuse o w :
+  heapless (wv w) -> heapfree_op o ->
+  heapless (wv (sr_world (run_step c fuse o w))) /\ noalloc (step_events c fuse o w).
+Proof.
+  intros Hl Hop. unfold step_events, run_step, world_events.
+  set (w0 := {| wv := wv w; wuw := {| ulog := []; unext := unext (wuw w); ufuse := fuse |} |}).
+  pose proof (exec_noalloc c o Hop w0) as H.
+  assert (X : forall w', Rw2 w0 w' -> heapless (wv w') /\ noalloc (rev (ulog (disarm (wuw w'))))).
+  { intros w' Hw. destruct (Hw Hl) as (Hl' & es & A0 & N0). split; [exact Hl'|].
+    unfold appended in A0. cbn [w0 wuw ulog disarm] in *. rewrite app_nil_r in A0. rewrite A0, rev_involutive. exact N0. }
+  destruct (exec c o w0) as [[out r] w'|p w'|f]; cbn [sr_world wv wuw]; auto.
+  cbn [w0 wuw disarm ulog rev wv]. split; [exact Hl|reflexivity].
+Qed.
+
+(** C11 along every history: as long as the script builds no heap-backed vector, no step of it - whatever
+    the operations, outcomes and armed panic fuses - makes the allocator see a single request *)
+Theorem history_noalloc c steps : forall w,
+  heapless (wv w) -> Forall (fun fo => heapfree_op (snd fo)) steps ->
+  noalloc (fst (run_steps c steps w)) /\ heapless (wv (snd (run_steps c steps w))).
+Proof.
+  induction steps as [|[fuse o] rest IH]; intros w Hl Hops; cbn [run_steps].
+  - split; [reflexivity|exact Hl].
+  - inversion Hops as [|x l Ho Hrest]; subst. cbn [snd] in Ho.
+    destruct (step_noalloc c fuse o w Hl Ho) as [Hl1 N1].
+    specialize (IH (sr_world (run_step c fuse o w)) Hl1 Hrest).
+    destruct (run_steps c rest (sr_world (run_step c fuse o w))) as [es w']. cbn [fst snd] in *.
+    destruct IH as [N2 Hl2]. split; [apply noalloc_app; assumption|exact Hl2].
+Qed.
+
+(** non-vacuity: a history on StackN<3,16>, the user-defined backend and Empty with growth refused, a clone, a splice, a panicking
+    destructor and drops - not one allocator event *)
+Definition nx_steps : list (option N * op) :=
+  [ (None, ONew 0 (BStackN 3 16)); (None, OPush Erased 0 SWrap); (None, OPush Erased 0 SWrap); (None, OPush Erased 0 SWrap);
+    (None, OPush Erased 0 SWrap);                 (* beyond the fixed capacity: panics *)
+    (None, OClone 0 1); (None, OWithCapacity 2 (BReloc 2) 5); (None, OPush Erased 2 SWrap); (None, OReserve 0 9);
+    (None, OSplice Erased 0 (BIncluded 0) (BExcluded 1) [] FinDrop RWrap 2 None 2);
+    (Some 0, OClear Erased 1); (None, ODropVec 0); (None, OCloneEmptyIn 1 3 BEmpty) ].
+Example nx_heapfree : Forall (fun fo => heapfree_op (snd fo)) nx_steps.
+Proof. repeat constructor; cbn; discriminate. Qed.
+
+Example nx_events :
+  fst (run_steps lx_cfg nx_steps init_world)
+  = [EDrop 4; EClone 1 5; EClone 2 6; EClone 3 7; EBuild 3 1; EResize 5; EDrop 9; EDrop 10; EDrop 5] /\
+  world_lens (snd (run_steps lx_cfg nx_steps init_world)) = [None; Some 0; Some 1; Some 0].
+Proof. vm_compute. split; reflexivity. Qed.
